@@ -18,7 +18,7 @@ def main():
     bid, patch = sys.argv[1], os.path.abspath(sys.argv[2])
     checks = [a for a in sys.argv[3:] if re.fullmatch(r"C\d\d", a)] or ALL
     dst = os.path.join(VERIF, "benign", bid); os.makedirs(dst, exist_ok=True)
-    shutil.copy(patch, os.path.join(dst, "patch.diff"))
+    if os.path.abspath(patch) != os.path.abspath(os.path.join(dst, "patch.diff")): shutil.copy(patch, os.path.join(dst, "patch.diff"))
     rc, out = sh("git -C /repo status --porcelain -- src Cargo.toml")
     if out.strip(): print("/repo is not clean:", out); return 2
     rc, out = sh("git -C /repo apply %s" % patch)
